@@ -1067,7 +1067,7 @@ def c17_probe(srv, urls, codes, timeout=15.0):
             bad = "HTTP 400 %s for a valid request" % j.get("errorCode")
         if bad:
             if "invalid UTF-8 byte" in srv.output():
-                return "valid-request-400", ("non-utf8-text-answered-as-query-error", None, "GET %s: %s; server log: %s" % (url, bad, " ".join(re.findall(r"Caught exception[^\n]*", srv.output())[-1:]))), keys
+                return "valid-request-400", ("non-utf8-text-answered-as-query-error", None, "GET %s: %s; server log: %s" % (url, bad, " ".join(re.findall(r"invalid UTF-8 byte[^\n\"]*", srv.output())[-1:]))), keys
             return "bad-answer", ("bad-answer", (j or {}).get("errorCode") or "malformed", "GET %s: %s" % (url, bad)), keys
         keys.append(answer_key(kind, st, body))
         if first is None:
@@ -1078,23 +1078,42 @@ def c17_probe(srv, urls, codes, timeout=15.0):
     return "ok:" + first, None, keys
 
 
-def c17_startup_test(fdir, urls, codes, server_exe, cache_all, tag):
-    """-> dict(outcome, fail=None|(sig head, detail, description), noticed, keys)"""
+LIBRARY_INTERNAL = re.compile(r"^(/usr/include/(capnp|kj)/[^\s:]+):\d+:\d+: runtime error:", re.M)
+
+
+def c17_startup_test(fdir, urls, codes, server_exe, cache_all, tag, plain_exe=None):
+    """-> dict(outcome, fail=None|(sig head, detail, description), noticed, keys).  plain_exe: callable returning the path of the
+    server built WITHOUT sanitizers; used only to decide whether a UBSan report located inside the Cap'n Proto headers (the decoder
+    on hostile bytes) is more than a sanitizer-only observation"""
     srv = H.start_server(fdir, euclid=True, exe=server_exe, cache_all=cache_all, ready_timeout=25.0, tag=tag)
     try:
         if srv is None:
             return dict(outcome="harness", fail=None, noticed=False, keys=[])
         if getattr(srv, "ready_s", None) is None:
-            if srv.alive():
-                # not ready within the time-out: once more, with patience, before it is called a hang
+            if srv.alive() or srv._rc is not None:
+                # not ready within the time-out (start_server has given up and stopped it): once more, with patience, before it is called a hang
                 srv.stop()
                 srv = H.start_server(fdir, euclid=True, exe=server_exe, cache_all=cache_all, ready_timeout=90.0, tag=tag + "b")
-                if getattr(srv, "ready_s", None) is None and srv.alive():
-                    return dict(outcome="startup-hang", fail=("startup-hang", "", "the server neither answers nor exits within 90 s of start-up: " + srv.output()[-300:]), noticed=True, keys=[])
+                if srv is None or (getattr(srv, "ready_s", None) is None and (srv.alive() or srv._rc is not None)):
+                    return dict(outcome="startup-hang", fail=("startup-hang", "", "the server neither answers nor exits within 90 s of start-up: " + (srv.output()[-300:] if srv else "")), noticed=True, keys=[])
             if getattr(srv, "ready_s", None) is None:
                 time.sleep(0.2)
                 out = srv.output()
                 how, det = crash_kind(out, srv.proc.poll())
+                m = LIBRARY_INTERNAL.search(out)
+                if how == "ubsan" and m and plain_exe is not None:
+                    # undefined behaviour reported INSIDE the Cap'n Proto headers while they decode hostile bytes: does the binary without sanitizers survive?
+                    pexe = plain_exe()
+                    if pexe:
+                        psrv = H.start_server(fdir, euclid=True, exe=pexe, cache_all=cache_all, ready_timeout=25.0, tag=tag + "p")
+                        try:
+                            if psrv is not None and getattr(psrv, "ready_s", None) is not None:
+                                outcome, fail, keys = c17_probe(psrv, urls, codes)
+                                if fail is None:
+                                    return dict(outcome="decoder-ubsan-only(" + outcome + ")", fail=None, noticed=True, keys=keys,
+                                                note="UBSan report inside the Cap'n Proto headers (%s); the server built without sanitizers starts and answers (%s)" % (asan_summary(out), outcome))
+                        finally:
+                            if psrv is not None: psrv.stop()
                 return dict(outcome="startup-%s:%s" % (how, det), fail=("startup-" + how, det, "start-up ends with exit code %s while loading the %s: %s" % (srv.proc.poll(), loader_stage(out), asan_summary(srv.sanitizer_output() or out[-800:]))), noticed=True, keys=[])
         outcome, fail, keys = c17_probe(srv, urls, codes)
         noticed = "[error]" in srv.output()
@@ -1216,6 +1235,14 @@ def run_c17(tier, seed, replay=None, theorems=None, module=None):
         if not server or not cachegen or not codes:
             return rep.finish()
         wd = H.workdir("c17")
+        plain_lock = threading.Lock()
+        plain_box = {}
+
+        def plain_exe():
+            with plain_lock:
+                if "exe" not in plain_box:
+                    plain_box["exe"] = core.harness_phase(rep, "server", "plain")
+                return plain_box["exe"]
         breaks = H.cachegen_breaks(cachegen)
         unknown = [b for b in breaks if b not in C17_BREAK_CLASS]
         rep.obligation("cachegen:break-kinds-classified", not unknown, "unclassified --break kinds: %s" % unknown)
@@ -1271,7 +1298,7 @@ def run_c17(tier, seed, replay=None, theorems=None, module=None):
                         r = dict(startup=None, update=None, error=None)
                         try:
                             c17_make_faulted(vdir, f["spec"], fdir, cachegen)
-                            r["startup"] = c17_startup_test(fdir, urls, codes, server, cache_all, "%s-%d" % (ds["did"], f["id"]))
+                            r["startup"] = c17_startup_test(fdir, urls, codes, server, cache_all, "%s-%d" % (ds["did"], f["id"]), plain_exe=plain_exe)
                             if f["update"]:
                                 r["update"] = c17_update_test(holder, sub, urls, codes)
                         except Exception as e:
@@ -1299,6 +1326,9 @@ def run_c17(tier, seed, replay=None, theorems=None, module=None):
                     outcomes[mode][f["cls"]][t["outcome"]] += 1
                     if replay:
                         print("%s  [%s] %s\n   -> %s%s\n   answers: %s" % (mode, f["cls"], what, t["outcome"], ("\n   " + t["fail"][2]) if t["fail"] else "", [k[:100] for k in t["keys"]]))
+                    if t.get("note"):
+                        stats["sanitizer-only reports inside the Cap'n Proto headers (plain build survives; not counted)"] += 1
+                        rep.notes.append("%s, dataset %s, %s: %s" % (what, ds["did"], mode, t["note"]))
                     if t["fail"] is not None:
                         sig = c17_signature(t["fail"], f["cls"])
                         dd.add(sig, "%s, dataset %s (seed %d), %s: %s" % (what, ds["did"], seed, "at start-up" if mode == "startup" else "through /updateCache?names=all on a healthy running server", t["fail"][2]),
